@@ -109,6 +109,28 @@ def run(ck, P):
                         own_paths(ck, tf, tf.params[i]["name"], None, "key", "C05.1-DUPKEY-OWNED",
                                   "param %s (dup from %s)" % (tf.params[i]["name"], f.name))
     ck.need(nsite >= 1, "key duplication site (mem_strdup) vanished from map.c")
+    # the caller's key stays the caller's when the map duplicates keys: a put may release the pointer it was handed only where the
+    # map is known not to be a KEY_DUP map (m_map_new forces AUTOFREE on DUP maps, so an AUTOFREE test alone proves nothing)
+    badk = None
+    nrel = 0
+    for f in (hp, mp):
+        kname = f.params[1]["name"]
+        for path in f.paths():
+            asm = rules.path_assumes(path)
+            own = False
+            for e in rules.path_events(f, path):
+                if e.kind in ("assign", "decl") and e.lhs is not None and S(e.lhs) == kname:
+                    own = True          # from here on the name holds the map's own copy (C05.1 follows that one)
+                if is_free_call(e) and e.args and strip(e.args[0]) is not None and strip(e.args[0])["k"] == "var" \
+                        and strip(e.args[0]).get("name") == kname and not own:
+                    nrel += 1
+                    if asm.get("(m->flags & %d)" % E["M_MAP_KEY_DUP"]) is not False and badk is None:
+                        badk = (f, e, path)
+    ck.ob("C05.1-DUPKEY-OWNED", hp.site("caller's key"), badk is None,
+          "%d release(s) of the key handed to a put, none on a path where the map may be duplicating keys" % nrel if badk is None else
+          "%s releases the key it was handed at line %d on a path that does not exclude M_MAP_KEY_DUP: on a duplicating map that pointer "
+          "belongs to the caller (the entry keeps its private copy)" % (badk[0].name, badk[1].line),
+          path=rules.fmt_path(badk[0], badk[2]) if badk else None, nontrivial=False)
 
     # ------------------------------------------------------------------ 2. destructor before overwrite / clear
     ck.rule("C05.2-DTOR-BEFORE-DROP", "R-PAIR: a store that replaces the value of a live entry (hashmap_put) or clears an entry "
